@@ -225,7 +225,15 @@ static int unhex (const char *h, char *out, size_t cap)
 
 static int c01_cmd (char *line)
 {
+  static int quiet = 0;
   char copy[1 << 16];
+  if (!quiet)
+    {
+      /* we are in the per-case child: efuns such as write() print to stdout, which is the case protocol */
+      quiet = 1;
+      fflush (stdout);
+      freopen ("/dev/null", "w", stdout);
+    }
   char *tok[16];
   char res[1024];
   if (!strncmp (line, "prog ", 5))
@@ -258,6 +266,8 @@ static int c01_cmd (char *line)
   int n = vh_split (copy, tok, 16);
   if (n == 0)
     return 0;
+  if (!strcmp (tok[0], "expect-abort"))
+    return 1;			/* annotation for the model (open known findings): no effect here */
   if (!strcmp (tok[0], "idx") && n == 7)
     {
       object_t *ob = need_ops ();
